@@ -187,6 +187,15 @@ def spec_op(F, op, pr, a):
         hp = lambda o: F.AND([F.IMP(-match[i], F.eqc(o[i], 0)) for i in range(n)] +
                              [F.IMP(unique, F.AND([F.eq(o[i], outs[i]) for i in range(n)]))])
         return dict(ok=ok, outs=outs, sound=lambda o: F.AND(ok, hp(o)), honest_pred=lambda o: F.AND(unique, hp(o)))
+    if op == "bitslice":
+        # std/math/bitslice.Partition: v = lower + 2^split*upper, lower < 2^split, upper < 2^(k-split),
+        # k = nbDigits if given, the field's bit length otherwise; v is the canonical representative
+        split, nd = pr
+        x = a[0]
+        ok = F.pred(("ltc", 1 << nd), lambda i: i < (1 << nd), x) if nd > 0 else F.T
+        lo = F.unop(("bslo", split), [v & ((1 << split) - 1) for v in range(p)], x)
+        hi = F.unop(("bshi", split), [v >> split for v in range(p)], x)
+        return dict(ok=ok, outs=[lo, hi])
     if op == "partition":
         right = pr[0] != 0
         piv, ins = a[0], a[1:]
